@@ -81,6 +81,46 @@ CHECKS.update({
         ref='4/C19', engine='rv-state'),
 })
 
+CHECKS.update({
+    'C03': dict(
+        technique='runtime reference-model monitor: adversary LP over discrete distributions of the ambiguity set at the returned decisions',
+        text='After each real dro solve an adversary LP (atoms on support vertices/boundary points, probabilities in the '
+             'probability set, conditional means in the expectation sets) searches for a distribution that beats the '
+             'reported optimum or violates an E-constraint; non-E constraints are attacked per scenario. Witness '
+             'distributions are re-verified in NumPy.',
+        note='Adversary affects detection power only; solvers trusted on the compiled program.',
+        ref='4/C03', engine='rv-reference'),
+    'C04': dict(
+        technique='runtime reference-model monitor: cutting-plane reference optimum over verified distributions',
+        text='RSOME optimum vs a cutting-plane reference (master LP over event-wise affine decisions, separation by the '
+             'adversary LP); optimistic/conservative disagreements need witnesses; sample-average and single-scenario '
+             'special cases included.',
+        note='Exactness of the reference needs vertex-enumerable supports and polyhedral probability/expectation sets; '
+             'elsewhere only the optimistic direction is judged.',
+        ref='4/C04', engine='rv-reference'),
+    'C10': dict(
+        technique='runtime monitor with an independent curvature calculus; stage-of-rejection recording; pinned-argument probes of accepted uses',
+        text='Random chains of scalings/negations/affine additions on every atom family, used on either side of <=,>=,== '
+             'or as min/max; non-convex uses must raise by st/min/max; accepted uses are probed for meaning; bilinear '
+             'products must be rejected.',
+        note='Rejecting a convex use is allowed; a loud failure after st() on a valid use is an observation.',
+        ref='4/C10', engine='rv-state'),
+    'C17': dict(
+        technique='runtime monitor: exhaustive misuse matrix + interleaved-build differential + class-state snapshots',
+        text='Every misuse entry x owner/foreign front end must raise before a program compiles and leave the owner model '
+             'intact; model A alone vs with model B built/solved inside its construction must give identical programs '
+             'and optima; class-level state must not change.',
+        note='The misuse table is a sample of all possible misuse.',
+        ref='4/C17', engine='rv-state'),
+    'C18': dict(
+        technique='runtime differential monitor: exact exponential-cone optimum vs soc_solve at degrees 4..8; structural comparison of to_socp output',
+        text='soc_solve value vs ECOS exact value (relative to the size of the exponential terms, exponents verified in '
+             '[-4,4]); to_socp must carry rows, senses, rhs, bounds, types, cones over unchanged and not touch the cached '
+             'primal; exact solve afterwards must still work.',
+        note='ECOS exponential-cone optimum is the exact reference.',
+        ref='4/C18', engine='rv-differential'),
+})
+
 PENDING = {}
 
 
